@@ -1,3 +1,5 @@
 //! Independent re-implementations written from doc/ (not from the code under
 //! test): used as oracles.
+pub mod teehistorian;
+pub mod datafile;
 pub mod varint;
